@@ -348,6 +348,35 @@ pub fn run_c18(args: &Args) -> i32 {
         report.record(std::slice::from_ref(dv), || json!({"kind": "bitboard-binary", "a": format!("{a:#018x}"), "b": format!("{b:#018x}")}));
     }
     restore_panics();
+    // thorough: the same check in a build without BMI2 (the portable `nth` path)
+    let mut other_flavour = json!(null);
+    let nobmi2 = "/verif/target/nobmi2/release/vcheck";
+    if args.tier == Tier::Thorough && std::env::var("VCHECK_SUBRUN").is_err() {
+        if !std::path::Path::new(nobmi2).exists() {
+            machinery_failure("the non-BMI2 build is missing (./check C18 --tier thorough builds it)");
+        }
+        let out = std::process::Command::new(nobmi2).args(["C18", "--tier", "quick"]).env("VCHECK_SUBRUN", "1").output().unwrap_or_else(|e| machinery_failure(&format!("{nobmi2}: {e}")));
+        let text = String::from_utf8_lossy(&out.stdout);
+        let mut cov = None;
+        for line in text.lines() {
+            if let Some(rest) = line.strip_prefix("SUBRUN-DIVERGENCE\t") {
+                let f: Vec<&str> = rest.splitn(3, '\t').collect();
+                report.record(&[Divergence::new(format!("no-bmi2-build:{}", f[0]), f.get(2).unwrap_or(&"").to_string())], || json!({"kind": "other-flavour", "binary": nobmi2}));
+            }
+            if let Some(rest) = line.strip_prefix("SUBRUN-COVERAGE ") {
+                cov = serde_json::from_str::<serde_json::Value>(rest).ok();
+            }
+        }
+        match cov {
+            Some(c) => {
+                if c["bmi2_path"].as_bool() != Some(false) {
+                    machinery_failure("the non-BMI2 build still has BMI2 enabled");
+                }
+                other_flavour = c;
+            }
+            None => machinery_failure("the non-BMI2 sub-run gave no coverage line"),
+        }
+    }
     let sample = all[(args.seed as usize * 7919 + 4242) % all.len()];
     report.finish(
         json!({
@@ -356,6 +385,7 @@ pub fn run_c18(args: &Args) -> i32 {
             "rule": "family = {empty, full, 64 singletons, 2016 pairs, 8 files, 8 ranks, complements of all of these} plus all 2^16 subsets of the 16-square window a1 b1 h1 a2 b2 h2 a8 b8 h8 g7 d4 e4 d5 e5 c3 f6 (every edge type). Every unary operation and every per-square operation (x 64 squares) on every member; the iterator explored from every suffix state of every member with next, size_hint and nth(n) for n in 0..=66, 128, usize::MAX-63, usize::MAX (result and the state left behind compared with skipping n elements); all binary operators and their assign forms on small x small (thorough: small x everything). Non-trivial = distinct non-empty boards.",
             "family_size": all.len(),
             "bmi2_path": cfg!(target_feature = "bmi2"),
+            "same_check_in_build_without_bmi2": other_flavour,
             "exhaustive": true,
             "exhaustive_note": "complete over the stated family, not over all 2^64 boards",
             "samples": [{"board": format!("{sample:#018x}"), "squares": members(&to_set(BitBoard::from_u64(sample))).iter().map(|&p| refchess::sq_name(p)).collect::<Vec<_>>()}],
